@@ -5,7 +5,26 @@
   relative error ≤ u; `fp = roundl(fp)` costs at most half a unit of the last printed digit.
   For ANY `Lawful rnd` the value read off the `Digits` record that `digitsOf` returns is within
       ½ · (unit of the last printed digit) + 2·K·u·x
-  of the argument, K = number of rounded steps (normalisation passes + generated digits).
+  of the argument, K = number of rounded steps (normalisation passes + generated digits),
+  whenever K·u ≤ ½:
+    * `digits_error_e`  (%e)  K = |e| + 2 + signCount
+    * `digits_error_f`  (%f)  K = signCount + 1
+  with corollaries for exact arithmetic (`_exact`, no `u` term; they also witness that the
+  hypotheses are satisfiable) and for binary64 with precision ≤ 22 (`_b64`).
+
+  Hypotheses on the rounding beyond `Lawful`:
+    hdu  : d ≤ u                 absolute error bound below the relative one at 1 (`hdu64`)
+    hdn  : d ≤ x·u               the argument is in the normal range (`hdn64`)
+    hfr  : the fraction of a representable v ≥ 1 is 0 or ≥ d/u (`hfr64`)
+    TenOk: rnd(10·v) < 10 for representable v < 1 (`tenOk_exact`, `tenOk64`); %e only.  Without it
+           `ip` can be 10 or 11 after the second normalisation loop while `fp` is not zero, and
+           the code's renormalisation `(ip + fp)/base` then adds the already scaled fraction.
+    hpw  : POW(10, n) is exactly 10^n for n ≤ precision (the carry test `fp != POW(base, sign_count)`).
+           Exact arithmetic: all n.  binary64 `powHost`: n ≤ 22 (`powHost_small`); for n ≥ 23 one
+           would need instead that the scaled fraction never reaches `powHost 10 n` (it stays
+           below 2^56), which is not of this form — hence `precision ≤ 22` in the `_b64` corollaries.
+    hint : rnd of a natural number is an integer (`hint64`); %f with precision 0 only
+           (`ip = roundl(ip + roundl(fp))` with an integer part that may exceed 2^53).
 -/
 import IgrisModel.C13.Total2
 namespace Igris.C13
@@ -409,7 +428,7 @@ theorem flr_half_int {w : ℚ} (h0 : 0 ≤ w) (h : FV.flr w = w) : FV.flr (w + 1
   rw [hk]
   exact flr_eq_nat (by linarith) (by linarith)
 
-theorem flr_natCast (k : ℕ) : FV.flr (k : ℚ) = k := flr_eq_nat (le_refl _) (by linarith)
+theorem flr_ofNat_eb (k : ℕ) : FV.flr (k : ℚ) = k := flr_eq_nat (le_refl _) (by linarith)
 
 section
 variable {rnd : Rounding} (L : Lawful rnd) (p : Nat → Nat → FV)
@@ -623,7 +642,7 @@ theorem renorm_e (a b : ℚ) (e : ℤ) (he : e.natAbs + 1 ≤ 2 ^ 53) (h : a < 1
       have := add_epv L e 1 (by omega)
       have e1 : epv 1 = .fin false 1 := by simp [epv]
       rw [e1] at this; exact this
-    have hf1 : FV.flr 1 = 1 := by have := flr_natCast 1; simpa using this
+    have hf1 : FV.flr 1 = 1 := by have := flr_ofNat_eb 1; simpa using this
     simp [hadd, hdiv, hep, FV.modf, hf1]
 
 end
@@ -935,5 +954,271 @@ theorem digits_error_f (fuel : ℕ) (x : ℚ) (precision : ℤ) (ops : Ops)
     constructor <;> nlinarith [hval.1, hval.2, hcore.1, hcore.2]
 
 end
+
+/-! ### exact arithmetic: every hypothesis holds, the bounds have no `u` term
+(these corollaries are also the non-vacuity witnesses of `digits_error_e` / `digits_error_f`) -/
+
+theorem tenOk_exact : TenOk (some : Rounding) := by
+  intro v w _ h1 hw
+  simp at hw; linarith
+
+theorem digits_error_e_exact (N fuel : ℕ) (x : ℚ) (precision : ℤ) (ops : Ops)
+    (h0 : 0 < x) (hN : x < 10 * 8 ^ N) (hN' : 1 ≤ x * 8 ^ N) (hf : N ≤ fuel)
+    (hNb : N + 2 ≤ 2 ^ 30) (hp0 : 0 ≤ precision) (hp1 : precision ≤ 340) :
+    ∃ (d : Digits FV) (a b : ℚ) (e : ℤ),
+      digitsOf exactA cfgNow fuel (.fin false x) precision ops true false = .ok d ∧
+      d.ip = .fin false a ∧ d.fp = .fin false b ∧ d.ep = epv e ∧
+      d.precision = (if ops.prec then precision else 6) ∧
+      |(a + b / 10 ^ d.signCount) * (10 : ℚ) ^ e - x| ≤ 1 / 2 * (10 : ℚ) ^ (e - d.precision) := by
+  obtain ⟨d, a, b, e, h1, h2, h3, h4, _, h5, _, _, h6⟩ :=
+    digits_error_e lawfulExact (fun b n => FV.mk some false ((b : ℚ) ^ n)) N fuel x precision ops rfl h0 hN hN' hf hNb
+      hp0 hp1 (le_refl _) (by simp [lawfulExact]) (fun v _ _ => Or.inr (by simp [lawfulExact])) tenOk_exact
+      (fun n _ => by simp [FV.mk])
+  refine ⟨d, a, b, e, by rw [exactA_eq]; exact h1, h2, h3, h4, h5, ?_⟩
+  have := h6 (e.natAbs + 2 + d.signCount) (le_refl _) (by simp [lawfulExact])
+  simpa [lawfulExact] using this
+
+theorem digits_error_f_exact (fuel : ℕ) (x : ℚ) (precision : ℤ) (ops : Ops)
+    (h0 : 0 < x) (hp0 : 0 ≤ precision) (hp1 : precision ≤ 340) :
+    ∃ (d : Digits FV) (a b : ℚ),
+      digitsOf exactA cfgNow fuel (.fin false x) precision ops false false = .ok d ∧
+      d.ip = .fin false a ∧ d.fp = .fin false b ∧
+      d.precision = (if ops.prec then precision else 6) ∧
+      |a + b / 10 ^ d.signCount - x| ≤ 1 / 2 * (10 : ℚ) ^ (-d.precision) := by
+  obtain ⟨d, a, b, h1, h2, h3, _, _, h5, _, h6⟩ :=
+    digits_error_f lawfulExact (fun b n => FV.mk some false ((b : ℚ) ^ n)) fuel x precision ops rfl h0
+      hp0 hp1 (le_refl _) (by simp [lawfulExact]) (fun v _ _ => Or.inr (by simp [lawfulExact]))
+      (fun n _ => by simp [FV.mk])
+      (fun _ n v h => by
+        have : (n : ℚ) = v := by simpa using h
+        rw [← this]; exact flr_ofNat_eb n)
+  refine ⟨d, a, b, by rw [exactA_eq]; exact h1, h2, h3, h5, ?_⟩
+  have := h6 (d.signCount + 1) (le_refl _) (by simp [lawfulExact])
+  simpa [lawfulExact] using this
+
+/-- non-vacuity, concretely: `x = 3/2`, `%.3e` and `%.3f` -/
+example : ∃ (d : Digits FV) (a b : ℚ) (e : ℤ),
+      digitsOf exactA cfgNow 1 (.fin false (3 / 2)) 3 { prec := true } true false = .ok d ∧
+      d.ip = .fin false a ∧ d.fp = .fin false b ∧ d.ep = epv e ∧ d.precision = 3 ∧
+      |(a + b / 10 ^ d.signCount) * (10 : ℚ) ^ e - 3 / 2| ≤ 1 / 2 * (10 : ℚ) ^ (e - d.precision) :=
+  digits_error_e_exact 1 1 (3 / 2) 3 { prec := true } (by norm_num) (by norm_num) (by norm_num) (le_refl _)
+    (by norm_num) (by norm_num) (by norm_num)
+example : ∃ (d : Digits FV) (a b : ℚ),
+      digitsOf exactA cfgNow 0 (.fin false (3 / 2)) 3 { prec := true } false false = .ok d ∧
+      d.ip = .fin false a ∧ d.fp = .fin false b ∧ d.precision = 3 ∧
+      |a + b / 10 ^ d.signCount - 3 / 2| ≤ 1 / 2 * (10 : ℚ) ^ (-d.precision) :=
+  digits_error_f_exact 0 (3 / 2) 3 { prec := true } (by norm_num) (by norm_num) (by norm_num)
+
+/-! ### 7. binary64 -/
+
+theorem hdu64 : lawful64.d ≤ lawful64.u := by
+  show pow2 (-1075) ≤ pow2 (-53)
+  exact pow2_mono (by norm_num)
+
+/-- `hdn` holds for every normal binary64 -/
+theorem hdn64 {x : ℚ} (hx : pow2 (-1022) ≤ x) : lawful64.d ≤ x * lawful64.u := by
+  show pow2 (-1075) ≤ x * pow2 (-53)
+  have e : pow2 (-1075) = pow2 (-1022) * pow2 (-53) := by
+    rw [← pow2_add]; norm_num
+  rw [e]
+  exact mul_le_mul_of_nonneg_right hx (le_of_lt (pow2_pos _))
+
+theorem ilog2_nonneg_of_one_le {v : ℚ} (h : 1 ≤ v) : 0 ≤ ilog2 v := by
+  obtain ⟨_, b⟩ := ilog2_spec (lt_of_lt_of_le one_pos h)
+  by_contra hc
+  have : pow2 (ilog2 v + 1) ≤ pow2 0 := pow2_mono (by omega)
+  rw [pow2_zero] at this
+  linarith
+
+/-- `hfr` for binary64: a double `≥ 1` that is not an integer has a fraction `≥ 2^-52` -/
+theorem hfr64 : ∀ v, rnd64 v = some v → 1 ≤ v → v - FV.flr v = 0 ∨ lawful64.d ≤ (v - FV.flr v) * lawful64.u := by
+  intro v h h1
+  have hvp : 0 < v := lt_of_lt_of_le one_pos h1
+  obtain ⟨k, hk, hv, _⟩ := rnd64_form hvp h
+  have hlog := ilog2_nonneg_of_one_le h1
+  have hE52 : -52 ≤ ulpExp v := by unfold ulpExp; omega
+  by_cases hE : 0 ≤ ulpExp v
+  · left
+    obtain ⟨n, hn⟩ := Int.eq_ofNat_of_zero_le hE
+    have hvi : v = ((k * 2 ^ n : ℕ) : ℚ) := by rw [hv, hn, pow2_nat]; push_cast; ring
+    rw [hvi, flr_ofNat_eb]; ring
+  · obtain ⟨n, hn⟩ := Int.eq_ofNat_of_zero_le (show 0 ≤ -ulpExp v by omega)
+    have hE' : ulpExp v = -(n : ℤ) := by omega
+    have hp2 : pow2 (ulpExp v) = 1 / (2 : ℚ) ^ n := by
+      rw [hE', pow2_eq, zpow_neg, zpow_natCast, one_div]
+    have h2n : (0 : ℚ) < 2 ^ n := by positivity
+    have hvk : v * 2 ^ n = k := by rw [hv, hp2]; field_simp
+    by_cases hf : v - FV.flr v = 0
+    · exact Or.inl hf
+    · right
+      have hfpos : 0 < v - FV.flr v := lt_of_le_of_ne (by linarith [flr_le v]) (Ne.symm hf)
+      -- (v - ⌊v⌋)·2^n is a positive integer
+      have hz : (((k : ℤ) - v.floor * 2 ^ n : ℤ) : ℚ) = (v - FV.flr v) * 2 ^ n := by
+        unfold FV.flr; push_cast; rw [← hvk]; ring
+      have hzpos : (0 : ℚ) < (((k : ℤ) - v.floor * 2 ^ n : ℤ) : ℚ) := by rw [hz]; exact mul_pos hfpos h2n
+      have hz1 : (1 : ℤ) ≤ (k : ℤ) - v.floor * 2 ^ n := by
+        have : (0 : ℤ) < (k : ℤ) - v.floor * 2 ^ n := by exact_mod_cast hzpos
+        omega
+      have hz1' : (1 : ℚ) ≤ (v - FV.flr v) * 2 ^ n := by rw [← hz]; exact_mod_cast hz1
+      have hfge : pow2 (ulpExp v) ≤ v - FV.flr v := by
+        rw [hp2, div_le_iff₀ h2n]; exact hz1'
+      have h52 : pow2 (-52) ≤ v - FV.flr v := le_trans (pow2_mono hE52) hfge
+      show pow2 (-1075) ≤ (v - FV.flr v) * pow2 (-53)
+      have e : pow2 (-105) = pow2 (-52) * pow2 (-53) := by rw [← pow2_add]; norm_num
+      have h3 : pow2 (-1075) ≤ pow2 (-105) := pow2_mono (by norm_num)
+      have h4 : pow2 (-52) * pow2 (-53) ≤ (v - FV.flr v) * pow2 (-53) :=
+        mul_le_mul_of_nonneg_right h52 (le_of_lt (pow2_pos _))
+      linarith
+
+/-- `TenOk` for binary64: the largest double below 1 is `1 - 2^-53`, and `10·(1 - 2^-53)·(1 + 2^-53) < 10` -/
+theorem tenOk64 : TenOk rnd64 := by
+  intro v w hv h1 hw
+  by_cases hvp : 0 < v
+  swap
+  · have : v * 10 ≤ 0 := by linarith
+    unfold rnd64 at hw
+    simp only [this, if_true] at hw
+    simp at hw; linarith
+  have hq : 0 < v * 10 := by linarith
+  have habs := rnd64_abs hq hw
+  rw [abs_le] at habs
+  have hu : pow2 (-53) ≤ 1 / 8 := lawful64.hu
+  have hd : pow2 (-1075) ≤ 1 / 8 := lawful64.hd
+  have hup : 0 < pow2 (-53) := pow2_pos _
+  by_cases hhalf : v < 1 / 2
+  · have : max (v * 10 * pow2 (-53)) (pow2 (-1075)) ≤ 1 := by
+      apply max_le
+      · have : v * 10 * pow2 (-53) ≤ 5 * (1 / 8) := mul_le_mul (by linarith) hu (le_of_lt hup) (by norm_num)
+        linarith
+      · linarith
+    linarith [habs.2]
+  · have hhalf' : 1 / 2 ≤ v := not_lt.mp hhalf
+    have hl : ilog2 v = -1 := by
+      apply ilog2_unique
+      · rw [pow2_eq]; norm_num; linarith
+      · rw [show (-1 : ℤ) + 1 = 0 by norm_num, pow2_zero]; exact h1
+    obtain ⟨k, hk, hvk, _⟩ := rnd64_form hvp hv
+    have hE : ulpExp v = -53 := by unfold ulpExp; rw [hl]; norm_num
+    rw [hE] at hvk
+    have h53 : pow2 (-53) * 2 ^ 53 = 1 := by
+      rw [← pow2_53, ← pow2_add]; norm_num [pow2_zero]
+    have hklt : (k : ℚ) < 2 ^ 53 := by
+      by_contra hc
+      have : 2 ^ 53 * pow2 (-53) ≤ (k : ℚ) * pow2 (-53) :=
+        mul_le_mul_of_nonneg_right (not_lt.mp hc) (le_of_lt hup)
+      linarith
+    have hk' : k < 2 ^ 53 := by exact_mod_cast hklt
+    have hk'' : (k : ℚ) ≤ 2 ^ 53 - 1 := by
+      have : k + 1 ≤ 2 ^ 53 := hk'
+      have : ((k + 1 : ℕ) : ℚ) ≤ ((2 ^ 53 : ℕ) : ℚ) := by exact_mod_cast this
+      push_cast at this; linarith
+    have hvle : v ≤ 1 - pow2 (-53) := by
+      rw [hvk]
+      have : (k : ℚ) * pow2 (-53) ≤ (2 ^ 53 - 1) * pow2 (-53) := mul_le_mul_of_nonneg_right hk'' (le_of_lt hup)
+      linarith
+    have hmax : max (v * 10 * pow2 (-53)) (pow2 (-1075)) ≤ v * 10 * pow2 (-53) := by
+      apply max_le (le_refl _)
+      have h1 : pow2 (-1075) ≤ pow2 (-53) := pow2_mono (by norm_num)
+      have h2 : 1 * pow2 (-53) ≤ v * 10 * pow2 (-53) := mul_le_mul_of_nonneg_right (by linarith) (le_of_lt hup)
+      linarith
+    have hw' : w ≤ v * 10 * (1 + pow2 (-53)) := by linarith [habs.2]
+    have : v * 10 * (1 + pow2 (-53)) ≤ (1 - pow2 (-53)) * 10 * (1 + pow2 (-53)) :=
+      mul_le_mul_of_nonneg_right (by linarith) (by linarith)
+    nlinarith [mul_pos hup hup]
+
+/-- binary64 rounds an integer to an integer (needed by `%f` with precision 0 only) -/
+theorem hint64 : ∀ (n : ℕ) (v : ℚ), rnd64 (n : ℚ) = some v → FV.flr v = v := by
+  intro n v h
+  by_cases hn : n ≤ 2 ^ 53
+  · have := lawful64.nat_exact n hn
+    rw [this] at h; injection h with h; rw [← h]; exact flr_ofNat_eb n
+  · have hn' : 2 ^ 53 < n := not_le.mp hn
+    have hnp : (0 : ℚ) < n := by exact_mod_cast (show 0 < n by omega)
+    obtain ⟨k, hk, hv, _⟩ := rnd64_form hnp h
+    have hl : 53 ≤ ilog2 (n : ℚ) := by
+      obtain ⟨_, b⟩ := ilog2_spec hnp
+      by_contra hc
+      have h1 : pow2 (ilog2 (n : ℚ) + 1) ≤ pow2 53 := pow2_mono (by omega)
+      rw [pow2_53] at h1
+      have h2 : (2 : ℚ) ^ 53 < n := by exact_mod_cast hn'
+      linarith
+    have hE : 0 ≤ ulpExp (n : ℚ) := by unfold ulpExp; omega
+    obtain ⟨m, hm⟩ := Int.eq_ofNat_of_zero_le hE
+    have hvi : v = ((k * 2 ^ m : ℕ) : ℚ) := by rw [hv, hm, pow2_nat]; push_cast; ring
+    rw [hvi]; exact flr_ofNat_eb _
+
+/-- the host's `pow(10, n)` is exact up to `10^22 = 5^22·2^22` (`5^22 < 2^53`) -/
+theorem powHost_small (n : ℕ) (hn : n ≤ 22) : powHost 10 n = .fin false ((10 : ℚ) ^ n) := by
+  unfold powHost
+  rw [if_neg (by omega), if_neg (by omega)]
+  simp only [Nat.cast_ofNat]
+  have e : (10 : ℚ) ^ n = ((5 ^ n : ℕ) : ℚ) * pow2 (n : ℤ) := by
+    rw [pow2_nat]; push_cast; rw [← mul_pow]; norm_num
+  have h5 : 5 ^ n ≤ 2 ^ 53 := le_trans (Nat.pow_le_pow_right (by norm_num) hn) (by norm_num)
+  have hlt : ((5 ^ n : ℕ) : ℚ) * pow2 (n : ℤ) < pow2 1024 := by
+    rw [← e]
+    have h3 : (10 : ℚ) ^ n ≤ 10 ^ 22 := pow_le_pow_right₀ (by norm_num) hn
+    have h4 : pow2 1024 = (2 : ℚ) ^ 1024 := pow2_nat 1024
+    rw [h4]
+    have h6 : (10 : ℚ) ^ 22 < 2 ^ 74 := by norm_num
+    have h7 : (2 : ℚ) ^ 74 ≤ 2 ^ 1024 := pow_le_pow_right₀ (by norm_num) (by norm_num)
+    exact lt_of_le_of_lt h3 (lt_of_lt_of_le h6 h7)
+  have := rnd64_fix h5 (by omega : (-1074 : ℤ) ≤ n) hlt
+  rw [← e] at this
+  simp only [FV.mk, this]
+
+/-- **binary64, `%e`**, precision ≤ 22 (so that every `pow(10, sign_count)` the carry test compares with
+is exact, `powHost_small`): all hypotheses of `digits_error_e` discharged for a normal double.
+For larger precisions `powHost 10 n` is not `10^n`; the carry test is then still right, but for a
+reason outside `hpw` (the scaled fraction stays below `2^56 < 10^23`, because only a non-integer
+double — hence one below `2^52` — is scaled again); that case is not covered here. -/
+theorem digits_error_e_b64 (N fuel : ℕ) (x : ℚ) (precision : ℤ) (ops : Ops)
+    (hx : rnd64 x = some x) (hxn : pow2 (-1022) ≤ x) (hN : x < 10 * 8 ^ N) (hN' : 1 ≤ x * 8 ^ N) (hf : N ≤ fuel)
+    (hNb : N + 2 ≤ 2 ^ 30) (hp0 : 0 ≤ precision) (hp1 : precision ≤ 22) :
+    ∃ (d : Digits FV) (a b : ℚ) (e : ℤ),
+      digitsOf b64A cfgNow fuel (.fin false x) precision ops true false = .ok d ∧
+      d.ip = .fin false a ∧ d.fp = .fin false b ∧ d.ep = epv e ∧ d.withExp = true ∧
+      d.precision = (if ops.prec then precision else 6) ∧ (d.signCount : ℤ) ≤ d.precision ∧
+      e.natAbs ≤ N + 1 ∧
+      ∀ K : ℕ, e.natAbs + 2 + d.signCount ≤ K → (K : ℚ) * pow2 (-53) ≤ 1 / 2 →
+        |(a + b / 10 ^ d.signCount) * (10 : ℚ) ^ e - x|
+          ≤ 1 / 2 * (10 : ℚ) ^ (e - d.precision) + 2 * K * pow2 (-53) * x := by
+  rw [b64A_eq]
+  exact digits_error_e lawful64 powHost N fuel x precision ops hx (lt_of_lt_of_le (pow2_pos _) hxn) hN hN' hf hNb
+    hp0 (by omega) hdu64 (hdn64 hxn) hfr64 tenOk64
+    (fun n hn => powHost_small n (by split at hn <;> omega))
+
+/-- **binary64, `%f`**, precision ≤ 22 -/
+theorem digits_error_f_b64 (fuel : ℕ) (x : ℚ) (precision : ℤ) (ops : Ops)
+    (hx : rnd64 x = some x) (hxn : pow2 (-1022) ≤ x) (hp0 : 0 ≤ precision) (hp1 : precision ≤ 22) :
+    ∃ (d : Digits FV) (a b : ℚ),
+      digitsOf b64A cfgNow fuel (.fin false x) precision ops false false = .ok d ∧
+      d.ip = .fin false a ∧ d.fp = .fin false b ∧ d.ep = epv 0 ∧ d.withExp = false ∧
+      d.precision = (if ops.prec then precision else 6) ∧ (d.signCount : ℤ) ≤ d.precision ∧
+      ∀ K : ℕ, d.signCount + 1 ≤ K → (K : ℚ) * pow2 (-53) ≤ 1 / 2 →
+        |a + b / 10 ^ d.signCount - x| ≤ 1 / 2 * (10 : ℚ) ^ (-d.precision) + 2 * K * pow2 (-53) * x := by
+  rw [b64A_eq]
+  exact digits_error_f lawful64 powHost fuel x precision ops hx (lt_of_lt_of_le (pow2_pos _) hxn)
+    hp0 (by omega) hdu64 (hdn64 hxn) hfr64
+    (fun n hn => powHost_small n (by split at hn <;> omega)) (fun _ => hint64)
+
+/-- non-vacuity of the binary64 corollaries: `x = 1.5` -/
+example : rnd64 (3 / 2) = some (3 / 2) ∧ pow2 (-1022) ≤ (3 / 2 : ℚ) ∧ (3 / 2 : ℚ) < 10 * 8 ^ 1 ∧
+    1 ≤ (3 / 2 : ℚ) * 8 ^ 1 := by
+  refine ⟨?_, ?_, by norm_num, by norm_num⟩
+  · have := rnd64_fix (k := 3) (E := -1) (by norm_num) (by norm_num) (by
+      have h1 : pow2 (-1) = 1 / 2 := by rw [pow2_eq]; norm_num
+      have h2 : pow2 0 ≤ pow2 1024 := pow2_mono (by norm_num)
+      rw [pow2_zero] at h2
+      rw [h1]; push_cast
+      have h3 : pow2 1 < pow2 1024 := pow2_lt (by norm_num)
+      have h4 : pow2 1 = 2 := by rw [pow2_eq]; norm_num
+      linarith)
+    have h1 : pow2 (-1) = 1 / 2 := by rw [pow2_eq]; norm_num
+    rw [h1] at this
+    norm_num at this
+    exact this
+  · have h1 : pow2 (-1022) ≤ pow2 0 := pow2_mono (by norm_num)
+    rw [pow2_zero] at h1; linarith
 
 end Igris.C13
